@@ -372,3 +372,60 @@ Section Partition.
       + contradiction.
   Qed.
 End Partition.
+
+(* ---------------- feed rows with missing results (f_nan) ---------------- *)
+
+Lemma join_ids (p : params) (ft fm : list string) (base : list brow) (feed : list frow) (i : string) :
+  In i (map d_id (join p ft fm base feed)) -> In i (map b_id base).
+Proof.
+  unfold join. rewrite in_map_iff. intros [r [E I]]. apply in_flat_map in I. destruct I as [b [Ib Ir]].
+  apply in_map_iff. exists b. split; [|exact Ib].
+  destruct (find_feed feed (b_postal b) (b_id b)) as [f|];
+    [destruct (f_nan f)|]; destruct (p_zero_policy p); cbn in Ir;
+    repeat match goal with H : _ \/ _ |- _ => destruct H | H : False |- _ => contradiction end; subst; reflexivity.
+Qed.
+
+(* under the "drop" policy a baseline unit whose feed row has no results has no row in the joined data ... *)
+Lemma join_drops_nan (p : params) (ft fm : list string) (base : list brow) (feed : list frow) (b : brow) (f : frow) :
+  p_zero_policy p = false -> NoDup (map b_id base) -> In b base ->
+  find_feed feed (b_postal b) (b_id b) = Some f -> f_nan f = true ->
+  ~ In (b_id b) (map d_id (join p ft fm base feed)).
+Proof.
+  intros Hz ND Ib Hf Hn. unfold join. rewrite in_map_iff. intros [r [E I]].
+  apply in_flat_map in I. destruct I as [b' [Ib' Ir]].
+  assert (b_id b' = b_id b) as Eid.
+  { destruct (find_feed feed (b_postal b') (b_id b')) as [f'|];
+      [destruct (f_nan f')|]; cbn in Ir; try rewrite Hz in Ir; cbn in Ir;
+      repeat match goal with H : _ \/ _ |- _ => destruct H | H : False |- _ => contradiction end; subst; cbn in E; exact E. }
+  assert (b' = b) as -> by (eapply key_inj with (k := b_id); eauto).
+  rewrite Hf, Hn, Hz in Ir. cbn in Ir. exact Ir.
+Qed.
+
+(* ... and is therefore passed through as an unexpected unit: it does not vanish *)
+Theorem nan_row_passed_through (p : params) (ft fm : list string) (base : list brow) (feed : list frow) (b : brow) (f : frow) :
+  p_zero_policy p = false -> NoDup (map b_id base) -> In b base ->
+  find_feed feed (b_postal b) (b_id b) = Some f -> f_nan f = true ->
+  In (b_id b) (ids_of (unexpected (join p ft fm base feed) feed)).
+Proof.
+  intros Hz ND Ib Hf Hn.
+  pose proof (join_drops_nan p ft fm base feed b f Hz ND Ib Hf Hn) as Hnot.
+  unfold unexpected. destruct (dedup_ids_NoDup (map (fun f0 => (f_id f0, Unexpected)) (not_in_ids (map d_id (join p ft fm base feed)) feed)) []) as [_ M].
+  apply M. split; [|intros []].
+  unfold find_feed in Hf. apply find_some in Hf. destruct Hf as [If Ef].
+  apply andb_true_iff in Ef. destruct Ef as [Ei _]. apply String.eqb_eq in Ei.
+  unfold ids_of. rewrite map_map. cbn [fst]. apply in_map_iff. exists f. split; [exact Ei|].
+  unfold not_in_ids. apply filter_In. split; [exact If|].
+  rewrite Ei. apply negb_true_iff. apply smem_false. exact Hnot.
+Qed.
+
+(* under the "zero" policy the same unit stays in the joined data with zero results and zero percent *)
+Theorem nan_row_zeroed (p : params) (ft fm : list string) (base : list brow) (feed : list frow) (b : brow) (f : frow) :
+  p_zero_policy p = true -> In b base ->
+  find_feed feed (b_postal b) (b_id b) = Some f -> f_nan f = true ->
+  exists r, In r (join p ft fm base feed) /\ d_id r = b_id b /\ (d_rw r == 0)%Q /\ (d_pev r == 0)%Q.
+Proof.
+  intros Hz Ib Hf Hn.
+  eexists. split.
+  - unfold join. apply in_flat_map. exists b. split; [exact Ib|]. rewrite Hf, Hn, Hz. left. reflexivity.
+  - cbn. repeat split; reflexivity.
+Qed.
